@@ -90,17 +90,6 @@ def _same_id(a, b):
     return False
 
 
-def _eq(self, other):
-    if isinstance(other, RecTerm) or isinstance(other, str):
-        return _same_id(self, other)
-    return False
-
-
-RecTerm.__eq__ = _eq
-RecTerm.__ne__ = lambda self, other: not _eq(self, other)
-RecTerm.__hash__ = lambda self: 0
-
-
 class StubStore:
     context_aware = True
     formula_aware = False
